@@ -42,8 +42,10 @@ def _install_contract() -> None:
         SQLDataHolder.commit_batched_unique_data_to_database)
 
 
-def _rec(eid: str, parent: str | None, typ: str, t: int) -> dict:
-    return {"job_name": "wf", "job_id": "trace-" + eid[0], "event_type": typ, "event_id": eid,
+def _rec(eid: str, parent: str | None, typ: str, t: int, job: str | None = None) -> dict:
+    return {"job_name": "wf" if job is None else "wf-" + job,
+            "job_id": "trace-" + (eid[0] if job is None else job), "event_type": typ,
+            "event_id": eid,
             "start_timestamp": 1000 + t, "end_timestamp": 2000 + t, "application_name": "app",
             "parent_event_id": parent}
 
@@ -134,13 +136,49 @@ def random_streams(rng: random.Random) -> tuple[list[list[dict]], int, dict]:
             if k:
                 n_dups += 1
                 if rng.random() < 0.5:
-                    stream.append(_rec(eid, rng.choice([None] + ids), f"dup{k}", 7 * t))
+                    # a re-sent span id may differ in everything else: payload, parent, and
+                    # the trace / workflow it claims to belong to
+                    stream.append(_rec(eid, rng.choice([None] + ids), f"dup{k}", 7 * t,
+                                       job=rng.choice([None, None, "other", "x"])))
                     continue
             stream.append(_rec(eid, parents[eid], "T" + eid, 0))
         streams.append(stream)
     total = sum(len(s) for s in streams)
     b = rng.choice([1, 2, 3, rng.randint(1, total + 1), total, total + 1, 1000])
     return streams, b, {"dups": n_dups, "runs": runs}
+
+
+def large_streams(rng: random.Random) -> tuple[list[list[dict]], int, dict]:
+    """Streams longer than any internal chunking a store might use (100-400 records), few
+    duplicates at seeded positions (also far behind position 100), batch sizes around 100 and
+    'larger than stream'."""
+    n_ids = rng.randint(100, 330)
+    ids, parents = [], {}
+    for i in range(n_ids):
+        eid = f"{chr(97 + i % 3)}{i}"
+        parents[eid] = None if not ids or rng.random() < 0.05 else (
+            ids[-1] if rng.random() < 0.6 else rng.choice(ids))
+        ids.append(eid)
+    stream = [_rec(e, parents[e], "T" + e, 0) for e in ids]
+    n_dups = rng.randint(1, 4)
+    for k in range(n_dups):
+        src = rng.choice(ids)
+        pos = rng.randint(1, len(stream))
+        if rng.random() < 0.5:
+            dup = dict(next(s for s in stream if s["event_id"] == src))
+        else:
+            dup = _rec(src, rng.choice([None] + ids[:5]), f"dup{k}", 7 * k,
+                       job=rng.choice([None, "other"]))
+        stream.insert(pos, dup)
+    runs = 1 if rng.random() < 0.7 else 2
+    if runs == 2:
+        cut = rng.randint(1, len(stream) - 1)
+        streams = [stream[:cut], stream[cut:] + [dict(rng.choice(stream[:cut]))]]
+    else:
+        streams = [stream]
+    total = len(stream)
+    b = rng.choice([64, 99, 100, 101, 128, 129, 250, total, total + 5, 1000])
+    return streams, b, {"dups": n_dups, "runs": runs, "large": True}
 
 
 def run_chunk(case: dict) -> dict:
@@ -197,7 +235,11 @@ def run_chunk(case: dict) -> dict:
     else:
         rng = random.Random(case["rng_seed"])
         for idx in range(case["count"]):
-            streams, b, meta = random_streams(rng)
+            if idx % 12 == 11:
+                streams, b, meta = large_streams(rng)
+                bump("large_streams")
+            else:
+                streams, b, meta = random_streams(rng)
             run_one(streams, b, meta, idx)
             if not samples and meta["dups"] >= 2:
                 samples.append({"streams": [[(s["event_id"], s["event_type"], s["parent_event_id"])
@@ -215,7 +257,10 @@ def main(tier: str, seed: int) -> int:
              "a0<-a1<-a2) with every duplicate placement, duplicates identical or with altered "
              "payload/parent, x every batch size 1..n+1; (b) seeded random streams of <=40 "
              "records over <=12 ids with altered duplicates, one or two runs on one database "
-             "file, batch sizes {1,2,3,random,n,n+1,1000}. distinct = distinct (stream(s), "
+             "file, batch sizes {1,2,3,random,n,n+1,1000}; a re-sent id may differ in payload, "
+             "parent and trace/workflow; every 12th random case is a long stream (100-330 ids, "
+             "1-4 duplicates anywhere) with batch sizes {64,99,100,101,128,129,250,n,n+5,1000}. "
+             "distinct = distinct (stream(s), "
              "batch size); trivial = none (every case is compared row by row)")
     chk.assumptions = ["model: first occurrence per span id wins, link = that occurrence's parent",
                        "tables read back with plain SQL, independent of the ORM session"]
